@@ -351,13 +351,13 @@ class FormulaMaterializer(metaclass=FormulaMaterializerMeta):
 
     def _prepare_factor_evaluation_model_spec(
         self, model_specs: ModelSpecs
-    ) -> tuple[set[Factor], ModelSpec]:
+    ) -> tuple[list[Factor], ModelSpec]:
         from formulaic.model_spec import ModelSpec
 
         output = set()
         na_action = set()
         ensure_full_rank = set()
-        factors: set[Factor] = set()
+        factors: dict[Factor, None] = {}  # (an ordered set: formula order)
         transform_state = {}
         encoder_state = {}
 
@@ -366,7 +366,9 @@ class FormulaMaterializer(metaclass=FormulaMaterializerMeta):
             na_action.add(model_spec.na_action)
             ensure_full_rank.add(model_spec.ensure_full_rank)
             factors.update(
-                itertools.chain(*(term.factors for term in model_spec.formula))
+                dict.fromkeys(
+                    itertools.chain(*(term.factors for term in model_spec.formula))
+                )
             )
             transform_state.update(
                 model_spec.transform_state
@@ -380,7 +382,7 @@ class FormulaMaterializer(metaclass=FormulaMaterializerMeta):
                 "Provided `ModelSpec` instances are not consistent."
             )  # pragma: no cover; will only occur if users manually construct a structured model spec.
 
-        return factors, cast(
+        return list(factors), cast(
             ModelSpec,
             ModelSpec.from_spec(
                 [],
